@@ -623,6 +623,10 @@ class C06(Monitor):
                     if st not in ("ended", "unknown"):
                         self.v("task whose end callback has run is not ended/forgotten for cancel()", k, st)
                         return
+                    if st == "unknown" and k not in w.flush_covered and p not in w.closing:
+                        # only flush() (called after the task finished) and gather_and_close() forget tasks
+                        self.v("ended task unknown to cancel() although no flush() was called since it ended", k)
+                        return
                     state[t] = st
                 elif w.exited[k] == "cancelled" and w.cb_begun[("ccb", k)]:
                     state[t] = "cancelled"
@@ -724,6 +728,14 @@ class C09(Monitor):
         return (pool.num_running, pool.num_cancelled, pool.num_ended, pool.is_full, pool.pool_size, groups, tuple(known),
                 len(w.started), len(w.exited), dict(w.pulled), dict(w.calls), len(w.loop._ready), str(pool))
 
+    def sample(self, kind, key, tag):
+        w = self.w
+        if w.terminated or w.probing:
+            return
+        for p in pools_of(w):
+            if w.pools[p].is_locked != (p in w.locked_pools):
+                self.v("is_locked does not reflect the last lock()/unlock()/gather_and_close()", p, w.pools[p].is_locked, kind)
+
     def alternatives(self, p):
         w = self.w
         pool = w.pools[p]
@@ -812,7 +824,8 @@ class C09(Monitor):
         if "locked" in sub:
             pool.lock()
         causes = {("dupname" if c.startswith("dup:") else c) for c in sub} - {"named"}
-        if pool.is_locked:
+        # whether the pool is locked is the harness' knowledge (last of lock()/unlock()/gather_and_close()), not the pool's answer
+        if p in w.locked_pools or "locked" in sub:
             causes.add("locked")
         if closed:
             causes.add("closed")
@@ -1253,7 +1266,9 @@ class C14(Monitor):
             self.expected.update((p, t) for t in self.exp)
 
     def sample(self, kind, key, tag):
-        if kind == "w_cancel" and key not in self.expected and tag not in self.w.group_cancelled:
+        if kind == "w_cancel" and key not in self.expected and tag not in self.w.group_cancelled and not self.w.cancelled_ops:
+            # (cancelling the caller of flush()/gather_and_close() cancels the tasks its gather() waits for: asyncio's
+            # documented behaviour, not an effect of stop())
             self.v("a task that was not stopped observed a cancellation", key)
 
     def quiet_idle(self):
